@@ -158,15 +158,29 @@ def addr_text(rep, u, fname="sa_addr_to_str"):
             raise driver.AnalysisBroken("%s no longer calls %s" % (fname, cal))
     n = 0
     bad = undec = None
-    for fam, size, L, ok in itertools.product((1, 2, 10), (1, 2, 8, 16, 46), (0, 1, 7, 15, 16, 45, 60), (True, False)):
-        if fam != 1 and ok and not (L < size - 1 or (L < size and size - 1 > L)):
-            continue            # inet_ntop succeeds only when text and terminator fit the size it was given
-        if fam == 1 and not ok:
-            continue
+    for fam, size, L in itertools.product((1, 2, 10), (1, 2, 8, 16, 46), (0, 1, 7, 15, 16, 45, 60)):
+        ok = True
+        bind = {p_addr: ADDR, "%s->ss_family" % p_addr: fam, p_buf: BUF, p_size: size, p_ret: RET, "*(__errno_location())": 28}
+        if fam != 1:
+            # inet_ntop succeeds exactly when the text and its terminator fit the capacity it is *given*: read that capacity
+            pe0 = r_stride.PE(u, call_default={"inet_ntop": BUF, "sa_addr_get": SIN, "strnlen": min(L, size), "strlcpy": L, "__errno_location": 0x40000})
+            pe0.memory[0x40000] = 28
+            ev0, _r0 = pe0.trace(fn, bind)
+            cap0 = None
+            for e0, b0 in ev0:
+                for x0, _ in walk(e0):
+                    if x0.get("k") == "call" and x0.get("fn") == "inet_ntop":
+                        try:
+                            cap0 = r_mpt.eval_expr(x0["args"][3], {}, pe0._hook(b0, {}))
+                        except r_mpt.Unknown:
+                            cap0 = None
+            if cap0 is None:
+                undec = undec or "family=%s buf_size=%d: the capacity handed to inet_ntop is not evaluable" % (FAM_NAME[fam], size)
+                continue
+            ok = L + 1 <= cap0
         pe = r_stride.PE(u, call_default={"inet_ntop": BUF if ok else 0, "sa_addr_get": SIN, "strnlen": min(L, size), "strlcpy": L,
                                            "__errno_location": 0x40000})
         pe.memory[0x40000] = 28
-        bind = {p_addr: ADDR, "%s->ss_family" % p_addr: fam, p_buf: BUF, p_size: size, p_ret: RET, "*(__errno_location())": 28}
         ev, ret = pe.trace(fn, bind)
         what = "family=%s buf_size=%d text of %d bytes%s" % (FAM_NAME[fam], size, L, "" if ok else " (inet_ntop fails)")
         if isinstance(ret, str):
@@ -196,6 +210,8 @@ def addr_text(rep, u, fname="sa_addr_to_str"):
         if not ok:
             if ret == 0:
                 bad = bad or "%s: success is returned" % what
+            elif L < size:
+                bad = bad or "%s: the text and its terminator fit the buffer, but inet_ntop is given less than the buffer and fails" % what
             continue
         text = L if fam == 1 else min(L, size)
         fits = text < size
@@ -494,7 +510,12 @@ def prefix_passthrough(rep, u, fname="str_net_to_ss"):
             pe = r_stride.PE(u)
             bind = {"buf": BUF, "buf_size": 20, "addr": ADDR, "preflen_ret": OUT, "addr->ss_family": fam,
                     key(srch[0]): (BUF + 10) if have else 0, key(addrp[0]): 0}
-            if have:
+            if numcalls[0].get("fn", "").endswith("_chk"):
+                # status + value through the last argument
+                bind[key(numcalls[0])] = 0
+                if have:
+                    pe.out_default = {numcalls[0]["fn"]: {len(numcalls[0]["args"]) - 1: v}}
+            elif have:
                 bind[key(numcalls[0])] = v
             else:
                 bind[key(numcalls[0])] = r_stride.UNSURE
@@ -520,6 +541,54 @@ def prefix_passthrough(rep, u, fname="str_net_to_ss"):
     return n
 
 
+LENIENT = ("str2u", "ustr2u", "str2s", "ustr2s", "strtoul", "strtol", "atoi", "atol")
+
+
+def strict_number_rule(rep, us):
+    """"Parsing ... rejects everything else with an error": the numeric parts of an address text (port, prefix length) are
+    parsed by a routine that can fail.  The str2u* family cannot: it skips every non-digit byte and wraps modulo the type,
+    so "1.2.3.4:http" is port 0, ":65616" is port 80 and "/x" is prefix 0 (the whole Internet).  In the two text parsers no
+    such routine is applied to the input text; the strict replacement is evaluated on a table of spellings."""
+    n = 0
+    for lab, names in ((SA, ("sa_addr_port_from_str",)), (NU, ("str_net_to_ss",))):
+        u = us[lab]
+        for nm in names:
+            fn = need(u, nm)
+            rep.functions.add(nm)
+            bad = [c for _p, _r, c, _ps in fn.calls() if (c.get("fn") or "").startswith(LENIENT) and not (c.get("fn") or "").endswith("_chk")]
+            n += 1
+            desc = "%s parses its numeric field with a routine that reports malformed text" % nm
+            if bad:
+                rep.violated("R-SPEC", fn, "strict-number", desc, "%s() at line %s cannot fail: non-digits are skipped and the value wraps (\"...:65616\" is 80, "
+                             "\".../x\" is 0)" % (bad[0]["fn"], bad[0].get("ln")), bad[0].get("ln"))
+            else:
+                rep.proved("R-SPEC", fn, "strict-number", desc, "")
+    # the strict parser itself, if present: spelling table
+    uh = us[SA]
+    fs = uh.fn("str2u16_chk")
+    if fs is not None and fs.has_cfg:
+        rep.functions.add(fs.name)
+        T, OUT = 0x10000, 0x7000
+        table = [("0", 0), ("80", 80), ("65535", 65535), ("00080", 80), ("65536", None), ("99999", None), ("100000", None), ("", None), ("-1", None),
+                 ("0x50", None), ("http", None), ("8 0", None), (" 80", None), ("80 ", None), ("+5", None)]
+        badt = undt = None
+        for txt, want in table:
+            pe = r_stride.PE(uh)
+            for i, ch in enumerate(txt.encode()):
+                pe.memory[T + i] = ch
+            ev, ret = pe.trace(fs, {fs.params[0]["n"]: T, fs.params[1]["n"]: len(txt), fs.params[2]["n"]: 65535, fs.params[3]["n"]: OUT})
+            n += 1
+            if isinstance(ret, str):
+                undt = undt or "%r: %s" % (txt, ret)
+                continue
+            got = ev[-1][1].get("*(%s)" % fs.params[3]["n"]) if ret == 0 else None
+            if (ret == 0) != (want is not None) or (want is not None and got != want):
+                badt = badt or "%r is %s%s" % (txt, "accepted" if ret == 0 else "refused", (" as %s" % got) if ret == 0 else "")
+        desc = "str2u16_chk accepts exactly the decimal spellings of 0..65535"
+        (rep.violated if badt else rep.undecided if undt else rep.proved)("R-SPEC", fs, "strict-number-table", desc, badt or undt or "%d spellings" % len(table))
+    return n
+
+
 def run(rep, tier):
     us = driver.load_units([common.src_unit(SA), common.src_unit(NU)])
     rep.use_units(us)
@@ -531,6 +600,7 @@ def run(rep, tier):
     rep.floor("family switch arms", kind_rule(rep, usa, SA) + kind_rule(rep, unu, NU), 20)
     parser_siblings(rep, usa)
     rep.floor("prefix text cases", prefix_passthrough(rep, unu), 16)
+    rep.floor("numeric fields of the text parsers", strict_number_rule(rep, us), 2)
     nwf = nacc = 0
     for lab, u in us.items():
         fns_ = [f for f in u.function_list if f.relfile() == lab]
